@@ -178,7 +178,9 @@ func Check(rec *Record) []Finding {
 				add("C06", "stream-nil-on-undecodable-event", fmt.Sprintf("attempt %d: the binlog holds an event that cannot be decoded (%s at packet %d) but Stream returned nil", i, full0.stop.Why, full0.stop.Index))
 			}
 		}
-		if at.Cancel == nil && at.BlockAt < 0 && (at.Plan.Kind == "inject" || at.Plan.Kind == "replace") && at.Plan.At >= 0 && ar.StreamNil && !ar.HandlerErr {
+		if at.Cancel == nil && at.BlockAt < 0 && (at.Plan.Kind == "inject" || at.Plan.Kind == "replace") && !at.Plan.Raw && at.Plan.At >= 0 && ar.StreamNil && !ar.HandlerErr {
+			// (a raw packet is not an event: an ERR packet of unusual shape is found by the
+			// reader, its failure is what Error() reports - the clause below)
 			add("C06", "stream-nil-on-bad-event", fmt.Sprintf("attempt %d: an unsupported / invalid event was injected at packet %d but Stream returned nil", i, at.Plan.At))
 		}
 		if ar.ErrReturned < 1 || log == nil {
